@@ -1,6 +1,8 @@
 import Holpy.C18.ProofsRes
 import Holpy.C18.ProofsHyps
 import Holpy.C18.ProofsEq
+import Holpy.C18.ProofsSimp
+import Holpy.C18.ProofsSimp2
 namespace Holpy.C18
 open Tm
 
@@ -10,6 +12,15 @@ theorem evalRule_sound' (I : Interp) (hI : I.LeOrder) (r : Rule) (cl : List Tm) 
   cases r <;> simp only [evalRule] at h
   case thResolution => exact thResolution_sound I _ _ _ _ h hp
   case eqReflexive => exact eqReflexive_sound I _ _ h
+  case iteSimplify => exact iteSimplify_sound I _ _ h (by simp only [wellKinded] at hk ⊢; exact hk)
+  case connectiveDef => exact connectiveDef_sound I _ _ h (by simp only [wellKinded] at hk ⊢; exact hk)
+  case subproof => exact subproof_sound I _ _ _ h hp
+  case notSimplify => exact notSimplify_sound I _ _ h (by simpa [wellKinded] using hk)
+  case andSimplify => exact andSimplify_sound I _ _ h (by simpa [wellKinded] using hk)
+  case orSimplify => exact orSimplify_sound I _ _ h (by simpa [wellKinded] using hk)
+  case impliesSimplify => exact impliesSimplify_sound I _ _ h (by simpa [wellKinded] using hk)
+  case equivSimplify => exact equivSimplify_sound I _ _ h (by simp only [wellKinded] at hk ⊢; exact hk)
+  case boolSimplify => exact boolSimplify_sound I _ _ h (by simpa [wellKinded] using hk)
   case eqTransitive => exact eqTransitive_sound I _ _ h (by simp only [wellKinded] at hk ⊢; exact hk)
   case transRule => exact transRule_sound I _ _ _ h hk hp
   case eqCongruent => exact eqCongruent_sound I _ _ h (by simp only [wellKinded] at hk ⊢; exact hk)
@@ -84,8 +95,17 @@ theorem evalRule_hyps' (r : Rule) (cl : List Tm) (sizes : List Nat) (ps : List S
   case notIte2 => exact notIte2_hyps _ _ _ h
   case contraction => exact contraction_hyps _ _ _ h
   case transRule => exact transRule_hyps _ _ _ h
+  case subproof => exact subproof_hyps _ _ _ h
   all_goals (intro x hx; exfalso)
   case eqReflexive => simp [eqReflexive_hyps _ _ h] at hx
+  case iteSimplify => simp [iteSimplify_hyps _ _ h] at hx
+  case connectiveDef => simp [connectiveDef_hyps _ _ h] at hx
+  case notSimplify => simp [notSimplify_hyps _ _ h] at hx
+  case andSimplify => simp [andSimplify_hyps _ _ h] at hx
+  case orSimplify => simp [orSimplify_hyps _ _ h] at hx
+  case impliesSimplify => simp [impliesSimplify_hyps _ _ h] at hx
+  case equivSimplify => simp [equivSimplify_hyps _ _ h] at hx
+  case boolSimplify => simp [boolSimplify_hyps _ _ h] at hx
   case eqTransitive => simp [eqTransitive_hyps _ _ h] at hx
   case eqCongruent => simp [eqCongruent_hyps _ _ h] at hx
   case laDisequality => simp [laDisequality_hyps _ _ h] at hx
